@@ -641,10 +641,22 @@ func monC08(tr *Trace, br map[string]int) (out []Violation) {
 	// the statement fixes the vote period; after a parameter change the round grid moves, so monitoring resumes
 	// once the next block has republished the round description
 	settled := true
+	// the prevotes accepted in the running round, by the validator spelling they were submitted under: what the history says a later
+	// reveal may open, whatever key the store filed them under
+	held := map[string]string{}
 	walk(tr, func(c *ctxStep) {
 		s := c.pre
 		if s.VP == 0 {
 			return
+		}
+		if c.op[0] == "prevote" && len(c.op) >= 5 && c.res[0] == "ok" {
+			held[c.op[2]] = c.op[3]
+		}
+		if c.op[0] == "vote" && len(c.op) >= 3 && c.res[0] == "ok" {
+			delete(held, c.op[2])
+		}
+		if c.op[0] == "block" && c.res[0] == "ok" && isTally(s) {
+			defer func() { held = map[string]string{} }()
 		}
 		if c.op[0] == "setoparams" {
 			settled = false
@@ -706,6 +718,9 @@ func monC08(tr *Trace, br map[string]int) (out []Violation) {
 				}
 			}
 			pv, has := s.Prevotes[c.op[2]]
+			if h, ok := held[c.op[2]]; ok && !has {
+				pv, has = h, true
+			}
 			want := pu(c.op[4]) == roundStart(s) && wf && has && decTok(pv) == voteHash(decTok(c.op[3]), vds)
 			got := c.res[0] == "ok"
 			if got {
